@@ -84,7 +84,19 @@ def looping_cubic(rng, scale=300.0):
     return c
 
 
-PAIR_FAMILIES = ['symmetric', 'random', 'random-int', 'through', 'through', 'tiny', 'small', 'thin-axis', 'thin-near-axis', 'straight', 'loop', 'overlap-no-cross']
+PAIR_FAMILIES = ['symmetric', 'random', 'random-int', 'through', 'through', 'tiny', 'small', 'thin-axis', 'thin-near-axis', 'straight', 'loop', 'overlap-no-cross', 'split-piece']
+
+
+def piece_of(parent_json, t, k):
+    a = gen.seg_from_json(parent_json).splitAtTime(t)[k]
+    a._verif_origin = {'parent': parent_json, 't': t, 'piece': k}
+    return a
+
+
+def pair_json(fam, a, b):
+    j = {'family': fam, 'a': gen.seg_json(a), 'b': gen.seg_json(b)}
+    if getattr(a, '_verif_origin', None): j['a_is_piece_of'] = a._verif_origin
+    return j
 
 
 def gen_pair(rng, fam=None):
@@ -98,6 +110,11 @@ def gen_pair(rng, fam=None):
         a, b = sym(), sym()
         if rng.random() < 0.5: b = CubicBezier(*[P(c.x - (p.y - c.y), c.y + (p.x - c.x)) for p in b.points])
         return fam, a, b
+    if fam == 'split-piece':
+        # an operand that is itself the product of a user-level splitAtTime (it must behave like a freshly built curve)
+        parent = rcurve(rng); t = rng.choice([0.4, 0.5, 0.25, rng.uniform(0.1, 0.9)]); k = rng.randrange(2)
+        a = piece_of(gen.seg_json(parent), t, k)
+        return fam, a, through(rng, a)
     if fam == 'random': return fam, rcurve(rng), rcurve(rng)
     if fam == 'random-int': return fam, rcurve(rng, integer=True), rcurve(rng, integer=True)
     if fam == 'through':
@@ -691,7 +708,7 @@ def search(ctx):
         evals += 1; dist_['pair/' + fam] = dist_.get('pair/' + fam, 0) + 1
         if ntrue: nontrivial.add((gen.seg_key(a), gen.seg_key(b)))
         if len(samples) < 2: samples.append({'family': fam, 'a': gen.seg_json(a), 'b': gen.seg_json(b), 'true_crossings': ntrue})
-        if f: record(f, {'pair': {'family': fam, 'a': gen.seg_json(a), 'b': gen.seg_json(b)}},
+        if f: record(f, {'pair': pair_json(fam, a, b)},
                      'every transversal interior crossing reported within 0.2% of the combined extent; no report with parameter points farther apart; order independent')
     for _ in range(ctx.n(40, 600)):
         fam, a, b = gen_pair(rng, fam=rng.choice(['random', 'through', 'random-int']))
@@ -726,7 +743,10 @@ def search(ctx):
 def replay(ctx, payload):
     i = payload['input']
     if 'stale' in i: return {'fails': True, 'observed': 'stale-state sequence: rerun the search with the same seed'}
-    if 'pair' in i: f, _, why = check_pair(gen.seg_from_json(i['pair']['a']), gen.seg_from_json(i['pair']['b']))
+    if 'pair' in i:
+        o = i['pair'].get('a_is_piece_of')
+        a = piece_of(o['parent'], o['t'], o['piece']) if o else gen.seg_from_json(i['pair']['a'])
+        f, _, why = check_pair(a, gen.seg_from_json(i['pair']['b']))
     elif 'cubic' in i: f, _, why = check_cubic_loop(gen.seg_from_json(i['cubic']))
     else: f, _, why = check_path([gen.seg_from_json(s) for s in i['path']])
     return {'fails': bool(f), 'observed': f, 'skipped': why}
